@@ -1047,4 +1047,142 @@ theorem uniteList_length (vs : List Ty) : (uniteList vs).length ≤ (vs.flatMap 
   have := dedup_length (vs.flatMap flatten1) []
   simpa [uniteList] using this
 
+/-! ## D. the recursion guard of `_type_from_runtime` -/
+
+theorem hasExhL_map_false {α : Type} (f : α → Shape) : ∀ (l : List α), (∀ a ∈ l, (f a).hasExh = false) →
+    Shape.hasExhL (l.map f) = false
+  | [], _ => by simp [Shape.hasExhL]
+  | a :: l, h => by
+    simp [Shape.hasExhL, h a (List.mem_cons_self ..), hasExhL_map_false f l (fun b hb => h b (List.mem_cons_of_mem _ hb))]
+
+theorem hasExhL_map_any {α : Type} (f : α → Shape) : ∀ (l : List α),
+    Shape.hasExhL (l.map f) = l.any (fun a => (f a).hasExh)
+  | [] => by simp [Shape.hasExhL]
+  | a :: l => by simp [Shape.hasExhL, hasExhL_map_any f l]
+
+theorem tfrDiverges_eq (ug : Bool) (g : RGraph) : ∀ (f : Nat) (gs : List Nat) (n : Nat),
+    tfrDiverges ug g f gs n = (tfr ug g f gs n).hasExh
+  | 0, gs, n => by simp [tfrDiverges, tfr, Shape.hasExh]
+  | f + 1, gs, n => by
+    unfold tfrDiverges tfr
+    cases hn : g[n]? with
+    | none => simp [Shape.hasExh]
+    | some x =>
+      cases x with
+      | leaf c => simp [Shape.hasExh]
+      | app args =>
+        simp only [Shape.hasExh, hasExhL_map_any]
+        congr 1
+        funext a
+        by_cases ha : a < n <;> simp [ha, tfrDiverges_eq ug g f gs a, Shape.hasExh]
+      | fref t ev =>
+        have e1 := tfrDiverges_eq ug g f gs t
+        have e2 := tfrDiverges_eq ug g f (n :: gs) t
+        by_cases hm : n ∈ gs
+        · simp [hm, Shape.hasExh]
+        · cases ug <;> cases ev <;> simp [hm, e1, e2]
+
+theorem countP_remove (p : Nat → Bool) (n : Nat) : ∀ (l : List Nat), l.Nodup → n ∈ l → p n = true →
+    l.countP (fun i => p i && i != n) + 1 = l.countP p
+  | [], _, h, _ => by cases h
+  | a :: l, hnd, hmem, hp => by
+    rw [List.nodup_cons] at hnd
+    by_cases ha : a = n
+    · subst ha
+      have hrest : l.countP (fun i => p i && i != a) = l.countP p := by
+        apply List.countP_congr
+        intro i hi
+        have : i ≠ a := fun h => hnd.1 (h ▸ hi)
+        simp [this]
+      simp [List.countP_cons, hp, hrest]
+    · have hmem' : n ∈ l := by
+        rcases List.mem_cons.1 hmem with h | h
+        · exact absurd h.symm ha
+        · exact h
+      have ih := countP_remove p n l hnd.2 hmem' hp
+      simp only [List.countP_cons]
+      have : (a != n) = true := by simpa using ha
+      simp only [this, Bool.and_true]
+      omega
+
+theorem remaining_cons (g : RGraph) (gs : List Nat) (n : Nat) (hn : n < g.length) (hf : isFref g n = true)
+    (hg : gs.contains n = false) : remaining g (n :: gs) + 1 = remaining g gs := by
+  unfold remaining
+  have hg' : n ∉ gs := by simpa using hg
+  have hp : (fun i => isFref g i && !gs.contains i) n = true := by simp [hf, hg']
+  have := countP_remove (fun i => isFref g i && !gs.contains i) n (List.range g.length) List.nodup_range
+    (List.mem_range.2 hn) hp
+  rw [← this]
+  congr 1
+  apply List.countP_congr
+  intro i _
+  by_cases hi : i = n
+  · subst hi; simp
+  · have hne : (i != n) = true := by simpa using hi
+    have hne' : (i == n) = false := by simpa using hi
+    simp [hne, hi]
+
+theorem getElem?_lt {g : RGraph} {n : Nat} {x : RNode} (h : g[n]? = some x) : n < g.length := by
+  rcases Nat.lt_or_ge n g.length with h1 | h1
+  · exact h1
+  · rw [List.getElem?_eq_none h1] at h; cases h
+
+/-- with every ForwardRef route inside `add_evaluation`, `tfrBound` frames suffice -/
+theorem tfr_no_exh (g : RGraph) : ∀ (f : Nat) (gs : List Nat) (n : Nat), tfrBound g gs n ≤ f →
+    (tfr false g f gs n).hasExh = false
+  | 0, gs, n, h => by simp [tfrBound] at h
+  | f + 1, gs, n, h => by
+    unfold tfr
+    cases hn : g[n]? with
+    | none => simp [Shape.hasExh]
+    | some x =>
+      have hlt := getElem?_lt hn
+      have hmin : min n g.length = n := by omega
+      cases x with
+      | leaf c => simp [Shape.hasExh]
+      | app args =>
+        simp only [Shape.hasExh]
+        apply hasExhL_map_false
+        intro a _
+        by_cases ha : a < n
+        · simp only [ha, if_true]
+          apply tfr_no_exh g f gs a
+          have : min a g.length = a := by omega
+          simp only [tfrBound, hmin, this] at h ⊢
+          omega
+        · simp [ha, Shape.hasExh]
+      | fref t ev =>
+        have key : (tfr false g f (n :: gs) t).hasExh = false ∨ n ∈ gs := by
+          by_cases hm : n ∈ gs
+          · exact .inr hm
+          · left
+            have hc' : gs.contains n = false := by simpa using hm
+            have hfr : isFref g n = true := by simp [isFref, hn]
+            have hrem := remaining_cons g gs n hlt hfr hc'
+            apply tfr_no_exh g f (n :: gs) t
+            have hmt : min t g.length ≤ g.length := Nat.min_le_right _ _
+            simp only [tfrBound, hmin] at h ⊢
+            have hr : remaining g gs = remaining g (n :: gs) + 1 := hrem.symm
+            rw [hr, Nat.add_mul] at h
+            omega
+        rcases key with hk | hm
+        · by_cases hm : n ∈ gs <;> simp [hm, hk, Shape.hasExh]
+        · simp [hm, Shape.hasExh]
+
+/-- `Json = List["Json"]` with the reference already resolved by typing: node 1 is the alias, node 0
+the ForwardRef inside it. -/
+def cyclicEvaluated : RGraph := [.fref 1 true, .app [0]]
+
+theorem unguarded_diverges : ∀ f : Nat,
+    (tfr true cyclicEvaluated f [] 1).hasExh = true ∧ (tfr true cyclicEvaluated f [] 0).hasExh = true
+  | 0 => by simp [tfr, Shape.hasExh]
+  | f + 1 => by
+    have ih := unguarded_diverges f
+    constructor
+    · simp [tfr, cyclicEvaluated, Shape.hasExh, Shape.hasExhL]
+      simpa [cyclicEvaluated] using ih.2
+    · simp [tfr, cyclicEvaluated]
+      simpa [cyclicEvaluated] using ih.1
+
+
 end Pya.C12
